@@ -358,6 +358,10 @@ class Machine:
         if len(parts) >= 2 and parts[-2] in T.enums and parts[-1] in T.enums[parts[-2]]:
             return ('agg', parts[-2], T.enums[parts[-2]].index(parts[-1]), args)
         if tuple_like or parts[-1] in T.structs: return ('agg', parts[-1], None, args)
+        if len(parts) >= 2 and parts[-1][:1].isupper() and parts[-2][:1].isupper():
+            # unit variant of an enum of an external crate (variant order unknown): the tag is the variant name itself;
+            # a switchInt on such a value is refused at run time (int() of a string fails closed)
+            return ('agg', parts[-2], 'variant:' + parts[-1], [])
         raise Unsupported('aggregate ' + s)
 
     # ------------------------------------------------------------ evaluation
@@ -438,7 +442,7 @@ class Machine:
         if c.endswith(']') and 'promoted[' in c:
             mp = re.search(r'([\w#{}]+)::(promoted\[\d+\])$', c)
             suffix = f'::{mp.group(1)}::{mp.group(2)}'
-            cands = [fl[-1] for n, fl in self.prog.fns.items() if n.endswith(suffix)]
+            cands = [fl[-1] for n, fl in self.prog.fns.items() if n.endswith(suffix) or n == suffix[2:]]
             if len(cands) > 1:
                 # disambiguate by the enclosing function's own name
                 own = fn.name + '::' + mp.group(2)
